@@ -188,6 +188,17 @@ func genPurgeOps(g *gen, p *Plan, timeout int) {
 	}
 }
 
+// in-package view of the pin table (set by the optional harness/inpkg_c15.go)
+type c15Entry struct {
+	key    string
+	expire time.Time
+}
+
+var (
+	c15NextClean func(px *Proxy) time.Time
+	c15Table     func(px *Proxy) []c15Entry
+)
+
 type pinModel struct {
 	backend    string
 	t0         time.Duration
@@ -471,7 +482,7 @@ func execLifetime(t *testing.T, p *Plan) *Result {
 				}
 			case "quiet-until-purge-due":
 				if len(keep) > 0 {
-					if dd := keep[0].dialogBasedBackends.nextCleanTime.Sub(w.K.Now()); dd > -time.Hour && dd < 24*time.Hour {
+					if dd := c15NextClean(keep[0]).Sub(w.K.Now()); dd > -time.Hour && dd < 24*time.Hour {
 						if dd+time.Second > 0 {
 							w.K.Advance(dd + time.Second)
 						}
@@ -509,7 +520,7 @@ func execLifetime(t *testing.T, p *Plan) *Result {
 					// requests reach the proxy at the very instant the purge falls due (not yet due: strictly later
 					// counts), their answers a little later, all at one instant: the first answer triggers the purge,
 					// the others re-establish pins that ran out in between
-					dd := keep[0].dialogBasedBackends.nextCleanTime.Sub(w.K.Now())
+					dd := c15NextClean(keep[0]).Sub(w.K.Now())
 					if dd > 50*time.Microsecond && dd < 24*time.Hour {
 						delay = dd
 						w.stat("probe:burst-aimed-at-the-purge-instant")
@@ -588,27 +599,22 @@ func execLifetime(t *testing.T, p *Plan) *Result {
 				}
 				w.Stats["judged:C15"]++
 				for _, px := range keep {
-					tbl := px.dialogBasedBackends
-					w.Stats["table-entries-seen"] += len(tbl.backends)
+					tbl := c15Table(px)
+					w.Stats["table-entries-seen"] += len(tbl)
 					stale := 0
 					var example string
 					var oldest time.Duration
-					for key, e := range tbl.backends {
+					for _, e := range tbl {
 						if age := now.Sub(e.expire); age > timeout+maxGap+time.Second {
 							stale++
 							if age > oldest {
 								oldest = age
-								example = key
+								example = e.key
 							}
 						}
 					}
-					if stale > 0 && *fTrace {
-						for key, e := range tbl.backends {
-							fmt.Printf("TABLE now=%v key=%s expire-rel=%v nextClean-rel=%v\n", w.K.Elapsed(), key, e.expire.Sub(now), tbl.nextCleanTime.Sub(now))
-						}
-					}
 					if stale > 0 {
-						v("expired-entries-not-purged", "", "", "%d of %d remembered entries expired more than one dialog-timeout (%v) plus the longest traffic gap (%v) ago while traffic continued; oldest %q expired %v ago", stale, len(tbl.backends), timeout, maxGap, example, oldest)
+						v("expired-entries-not-purged", "", "", "%d of %d remembered entries expired more than one dialog-timeout (%v) plus the longest traffic gap (%v) ago while traffic continued; oldest %q expired %v ago", stale, len(tbl), timeout, maxGap, example, oldest)
 						return
 					}
 				}
